@@ -163,6 +163,20 @@ def run(ctx) -> None:
                 oksel = True
     ctx.check(oksel is True, RM, "InotifyObserver selects the emitter", "InotifyObserver does not select InotifyFullEmitter exactly when generate_full_events is set", io.loc if io else fi.loc)
 
+    # ---- a rename inside the tree is one moved event only if its first half is still in the delay queue when the second arrives
+    RQ = ctx.rule(
+        "C03/rename-halves-stay-pairable",
+        "the contract row 'rename inside the tree -> one moved event' needs the MOVED_FROM half to stay in the delay queue until its delay "
+        "has elapsed and to be handed out only if it is still the head (shared instances of C17/C08: head re-validation, delay test after "
+        "the last blocking operation)",
+        floor=2,
+    )
+    from .c17 import delay_elapsed, get_paths, revalidate_head
+
+    qpaths, qci = get_paths(P)
+    revalidate_head(ctx, RQ, qpaths, qci)
+    delay_elapsed(ctx, RQ, P, qpaths, qci)
+
     # ---- synthetic flag ownership
     from ..fixtures import FX_SYNTH, must_fire, synthetic_marks
 
